@@ -17,6 +17,7 @@ from fractions import Fraction
 
 from sa import AnalysisError
 from sa.boolnf import equivalent
+from sa.pattern import pmatch, pfind
 from sa.astutil import dotted, src, stmt_text, params, find_stmts, calls_in, method_name, walk_no_nested, const, deep_resolved
 from sa.guards import facts_at, enclosing_conditions
 
@@ -506,9 +507,12 @@ def check_parsing(model, rep, oracle):
     u = model.cls('SI:Units')
     sa_ = u.members['__setattr__'].func
     txt = src(sa_.node)
-    ok = 'scaled_units = {p + name: value * s for p, s in self.__prefix.items()}' in txt and 'collisions = set(scaled_units) & set(self)' in txt and \
-        any(isinstance(s, ast.If) and src(s.test) == 'collisions' and any(isinstance(b, ast.Raise) for b in s.body) for s in sa_.body) and \
-        any(isinstance(s, ast.If) and src(s.test) == 'name in self' and any(isinstance(b, ast.Raise) for b in s.body) for s in sa_.body)
+    # a guard that raises when the prefixed names intersect the existing ones (whatever the intermediate sets are called), one that raises on redefinition
+    SC = '{P_ + name: value * S_ for P_, S_ in self.__prefix.items()}'
+    guards = [s for s in sa_.body if isinstance(s, ast.If) and any(isinstance(b, ast.Raise) for b in s.body)]
+    coll = any(pmatch(f'set({SC}) & set(self)', deep_resolved(sa_.node, g.test)) is not None or pmatch(f'set(self) & set({SC})', deep_resolved(sa_.node, g.test)) is not None for g in guards)
+    upd = any(src(c.func) == 'self.update' and len(c.args) == 1 and pmatch(SC, deep_resolved(sa_.node, c.args[0])) is not None for c in calls_in(sa_.node))
+    ok = coll and upd and any(src(g.test) == 'name in self' for g in guards)
     rep.ob('R20.8', sa_.key, sa_.where(), ok, 'defining a unit rejects redefinition and any collision of its prefixed names' if ok else
            'Units.__setattr__ no longer rejects redefinitions / prefix collisions: an ambiguous name silently changes meaning', statement='unit-collisions')
     # prefix tables
